@@ -450,7 +450,12 @@ static int restore_size (char **str, int is_mapping) {
     {
       mb_span = mblen (cp, MB_CUR_MAX);
       if (mb_span < 0)
-                    return -1;
+        {
+          /* not a character of the locale: LPC strings are byte strings and save_svalue() wrote it
+             byte by byte, so step over one byte instead of refusing the whole container */
+          (void) mblen (NULL, 0);
+          mb_span = 1;
+        }
       cp += mb_span; /* don't check in the middle of a multibyte character */
       switch (c)
                     {
@@ -461,7 +466,10 @@ static int restore_size (char **str, int is_mapping) {
                       {
                               mb_span = mblen (cp, MB_CUR_MAX);
                               if (mb_span < 0)
-                                return -1;
+                                {
+                                  (void) mblen (NULL, 0);
+                                  mb_span = 1; /* see above */
+                                }
                               cp += mb_span; /* don't check backslash in the middle of a multibyte character */
                               if ((c == '\0') || (c == '\\' && !*cp++))
                                 return 0;
